@@ -13,7 +13,7 @@ RULE = ("history = generated list of add_sample(list|set|repeated indices)/updat
         "as one value); non-trivial = history with a predict after >=2 separate adds to one design, or a set whose "
         "iteration order is not sorted, or a repeated index inside one add, or a rejected add followed by predict")
 ASSUMPTIONS = ["predictions are compared when the model was updated after the last add/clear (the algorithms' protocol)",
-               "float64 mean/variance compared at 1e-9 relative to the data scale"]
+               "float64 mean compared at 1e-9 x data scale; variance at 1e-9 relative to the variance (+1e-24 x scale^2)"]
 
 
 def _predict_rows(in_dim, rows):
@@ -125,7 +125,9 @@ def check(case):
                 r = int(np.argmax(np.abs(mu - emu).max(axis=1)))
                 return Result.violation("C16:mean", f"design {rows[r]} got {mu[r].tolist()} expected {emu[r].tolist()} "
                                         f"n_samples {len(snap[rows[r]])}", labels)
-            if not np.allclose(var, evar, rtol=0, atol=1e-9 * scale * scale):
+            # two-pass population variance is accurate relative to the variance itself, not to the squared magnitude
+            vtol = 1e-9 * np.abs(evar) + 1e-24 * scale * scale + 1e-300
+            if np.any(np.abs(var - evar) > vtol):
                 r = int(np.argmax(np.abs(var - evar).reshape(len(rows), -1).max(axis=1)))
                 return Result.violation("C16:variance", f"design {rows[r]} got {np.diag(var[r]).tolist()} expected "
                                         f"{np.diag(evar[r]).tolist()} n_samples {len(snap[rows[r]])}", labels)
@@ -148,7 +150,9 @@ def st_case(draw):
     in_dim = draw(st.integers(1, 3))
     m = draw(st.integers(1, 3))
     K = draw(st.sampled_from([1, 2, 3, 5, 9, 12, 20]))
-    val = st.one_of(st.floats(-1e3, 1e3), st.integers(-8, 8).map(lambda k: k / 4), st.floats(-1, 1))
+    # incl. a large common offset with a small spread (where one-pass variance formulas cancel catastrophically)
+    offs = st.tuples(st.sampled_from([1e3, -1e3, 1e5, 1e6]), st.floats(-1, 1), st.sampled_from([1.0, 1e-2, 1e-4])).map(lambda t: t[0] + t[1] * t[2])
+    val = st.one_of(st.floats(-1e3, 1e3), st.integers(-8, 8).map(lambda k: k / 4), st.floats(-1, 1), offs, offs)
     ops = []
     for _ in range(draw(st.integers(1, 14))):
         kind = draw(st.sampled_from(["add", "add", "add", "update", "update", "predict", "predict", "clear", "add_bad"]))
